@@ -20,7 +20,7 @@ from symx import Symx, Budget, K, render, lit_truth
 
 META = {
     'level': 'other',
-    'decides': 'that EOF validation tests, before accepting an instruction, every condition the interpreter relies on without a run-time check (section and container indices, presence of immediates and jump tables, jump targets, data offsets, unknown / disabled opcodes, terminating last instruction); that the header encoder and decoder use the same kind markers in the same order; that validation is deterministic',
+    'decides': 'that EOF validation tests, before accepting an instruction, every condition the interpreter relies on without a run-time check (section and container indices, presence of immediates and jump tables, jump targets, data offsets, unknown / disabled opcodes, terminating last instruction; that both RJUMPV table loops cover all max_index + 1 entries; that an EOFCREATE target has its data section filled and every sub container is decoded and validated); that the header encoder and decoder use the same kind markers in the same order; that validation is deterministic',
     'does_not_decide': 'byte-exact round trip of Eof::decode / encode_slow over all byte strings, that decode never panics, the stack-height analysis, and that no other interpreter path depends on validation',
     'explanation': 'Path enumeration of one iteration of validate_eof_code (339 paths) with the opcode byte as a path literal; relation-normalised comparison of guards; event sequences of the header encoder against the literals of the decoder\'s accepting paths; reachability scan of callee names.',
 }
